@@ -18,7 +18,7 @@ def sh(cmd, **kw):
 
 
 def main():
-    pid, src = sys.argv[1], sys.argv[2]
+    pid, src = sys.argv[1], os.path.abspath(sys.argv[2])
     checks = ALL
     name = pid
     if "--checks" in sys.argv:
